@@ -39,7 +39,7 @@ FoldGenesis(g, i) ==
     ELSE LET step == Genesis[i] IN
          IF IsAdmin(step.call)
          THEN LET a == AdminCall(g.codes, g.block, step.call) IN
-              FoldGenesis([g EXCEPT !.codes = a.codes, !.block = a.block], i + 1)
+              FoldGenesis([g EXCEPT !.codes = a.codes, !.block = a.block, !.root = AfterAdmin(@, step.call, a.block)], i + 1)
          ELSE LET r == RunTx(g.root, g.codes, g.block, step.call, step.sc) IN
               FoldGenesis([g EXCEPT !.root = r.post], i + 1)
 
@@ -55,7 +55,7 @@ GenesisWithNames(g, i, acc) ==
     ELSE LET step == Genesis[i] IN
          IF IsAdmin(step.call)
          THEN LET a == AdminCall(g.codes, g.block, step.call) IN
-              GenesisWithNames([g EXCEPT !.codes = a.codes, !.block = a.block], i + 1,
+              GenesisWithNames([g EXCEPT !.codes = a.codes, !.block = a.block, !.root = AfterAdmin(@, step.call, a.block)], i + 1,
                                Append(acc, [call |-> step.call, sc |-> step.sc, inst |-> <<>>]))
          ELSE LET r == RunTx(g.root, g.codes, g.block, step.call, step.sc) IN
               GenesisWithNames([g EXCEPT !.root = r.post], i + 1,
@@ -104,11 +104,12 @@ Admin(call) ==
     /\ LET a == AdminCall(codes, block, call) IN
        /\ codes' = a.codes
        /\ block' = a.block
+       /\ root' = AfterAdmin(root, call, a.block)
        /\ last' = [on |-> TRUE, tx |-> FALSE, pre |-> root, call |-> call, sc |-> <<>>,
-                   r |-> [ok |-> a.ok, val |-> a.val], codes |-> a.codes, block |-> a.block]
+                   r |-> [ok |-> a.ok, val |-> a.val, rlog |-> AdminRlog(root, call, a.block)], codes |-> a.codes, block |-> a.block]
        /\ hist' = Append(hist, [call |-> call, sc |-> <<>>, inst |-> <<>>])
     /\ ntx' = ntx + 1
-    /\ UNCHANGED <<root, cur>>
+    /\ UNCHANGED cur
 
 Settle == /\ last.on
           /\ last' = NoLast
@@ -159,8 +160,10 @@ Script ==
       ok      |-> last.r.ok,
       resps   |-> IF last.tx THEN last.r.resps ELSE <<>>,
       val     |-> IF last.tx THEN 0 ELSE last.r.val,
-      rlog    |-> IF last.tx THEN last.r.rlog ELSE <<>>,
+      rlog    |-> last.r.rlog,
       post    |-> root,
+      postsk  |-> SkView(root, last.block.t),
+      settled |-> Settled(root),
       codes   |-> last.codes,
       block   |-> last.block,
       mods    |-> Mods,
